@@ -695,7 +695,51 @@ def r03_15(chk):
     chk.floor("R03.15", 1, "the negate branch")
 
 
+SELECTORS = [
+    # (class.method, the local that holds the selected column indices)
+    ("ArrayAlignment.filtered", "indices"),
+    ("ArrayAlignment.sample", "locations"),
+]
+
+
+def r03_16(chk):
+    chk.rule("R03.16", "a column-selecting operation of the array-backed alignment builds its result from the selection on every path: each definition of the array handed to the result constructor derives from the selected indices (take / fancy indexing with them) -- a shortcut that hands on `self.array_seqs` when 'everything was selected' keeps the trailing columns that motif truncation (drop_remainder) had removed, and the two alignment classes then disagree")
+    from ..defuse import derived_names, expr_derives
+
+    m = chk.repo.module("core/alignment.py")
+    for q, sel in SELECTORS:
+        fn = m.func(q)
+        d = derived_names(fn, {sel})
+        ctor = [c for c in walk_no_nested(fn) if isinstance(c, ast.Call) and norm(c.func) == "self.__class__" and c.args]
+        if not ctor:
+            raise AnalysisError(f"{q}: result constructor not found")
+        for c in ctor:
+            a0 = c.args[0]
+            base = a0
+            while isinstance(base, ast.Attribute):
+                base = base.value
+            k = key(m, q, "result built from the selection")
+            if not isinstance(base, ast.Name):
+                chk.decide(expr_derives(a0, d), "R03.16", k, m.loc(c), "constructor argument derives from the selection", f"`{norm(a0)}` does not depend on `{sel}`")
+                continue
+            defs = [st for st in walk_no_nested(fn) if isinstance(st, ast.Assign) and any(isinstance(t, ast.Name) and t.id == base.id for t in st.targets)]
+            bad = [st for st in defs if not (expr_derives(st.value, {sel}) or any(isinstance(x, ast.Name) and x.id in d and x.id != base.id for x in ast.walk(st.value)))]
+            if not defs:
+                chk.unresolved("R03.16", k, m.loc(c), f"no definition of `{base.id}` found")
+            elif bad:
+                chk.violation("R03.16", k, m.loc(bad[0]), f"`{norm(bad[0])}` gives the result constructor an array that does not depend on `{sel}`: on that path the operation returns columns it was not asked for (with motif_length 3 on a length-8 alignment where every motif passes, 8 columns instead of 6)")
+            else:
+                chk.ok("R03.16", k, m.loc(c), f"every definition of `{base.id}` derives from `{sel}`")
+    chk.floor("R03.16", 2, "filtered and sample")
+
+
 def run(chk):
+    r03_16(chk)
+    # a row of an annotatable alignment is a sequence view: the raw-view discipline of C01 (R01.1) is what keeps
+    # 'no character is altered other than by complementing or the T/U exchange' true for rc() followed by a conversion
+    from . import c01
+
+    c01.r01_1_2(chk)
     r03_15(chk)
     r03_14(chk)
     r03_13(chk)
